@@ -297,6 +297,50 @@ def run_kernel(p, drv, res):
                      'max_allowance': float(2 * allow.max()), 'K_range': [float(dense.min()), float(dense.max())]}
 
 
+def run_history(p, drv, res):
+    """One kernel object with the fast path declared, used for a sequence of evaluations: the transform's values change
+    while its storage stays (in-place rescale, `copy_` of a new estimate - what an iterated fit does to `M`), then `None`,
+    then a fresh tensor, then other rows.  After every step the fast path must equal the dense evaluation (fresh object)."""
+    import numpy as np
+    import torch
+    d, num, groups, mat, x, z = build(p)
+    g2 = torch.Generator().manual_seed(p['seed'] + 1)
+    mat2 = make_transform(p, d, num, groups, g2)
+    x2, z2 = make_rows(p, d, num, groups, g2)
+    try:
+        K = declare(mk_kernel(p), num, groups)
+    except Exception as e:  # noqa: BLE001
+        res['failures'].append({'signature': f'C15:raises:{type(e).__name__}', 'detail': f'declaring the fast path: {str(e)[:200]}'})
+        return
+    steps = [('first evaluation', lambda m: m, x, z)]
+    if mat is not None:
+        steps += [('transform rescaled in place', lambda m: m.mul_(0.37), x, z),
+                  ('new estimate copied into the same tensor', lambda m: m.copy_(mat2), x, z),
+                  ('same tensor, other rows', lambda m: m, x2, z2)]
+    steps += [('no transform', lambda m: None, x, z), ('fresh transform tensor', lambda m: None if mat2 is None else mat2.clone(), x2, z)]
+    cur = mat
+    worst_ratio = 0.0
+    for name, upd, xs, zs in steps:
+        cur = upd(cur)
+        fast = guarded(res, f'{p["kernel"]} fast path, {name}', lambda: K.get_kernel_matrix(xs, zs, cur))
+        dense = guarded(res, f'{p["kernel"]} dense, {name}', lambda: mk_kernel(p).get_kernel_matrix(xs, zs, None if cur is None else cur.clone()))
+        if fast is None or dense is None:
+            return
+        fast, dense = fast.numpy(), dense.numpy()
+        allow, _, _ = allowance_kernel(p, xs, zs, cur)
+        bad, (i, j) = worst(fast, dense, 2 * allow)
+        worst_ratio = max(worst_ratio, float(np.nanmax(np.abs(fast - dense) / (2 * allow))))
+        if bad.any():
+            res['failures'].append({'signature': 'C15:fast-ne-dense:history', 'detail':
+                                    f'{p["kernel"]} transform={p["transform"]}, step "{name}" on one kernel object: fast[{i},{j}]={fast[i, j]!r} '
+                                    f'dense={dense[i, j]!r} allowance={2 * allow[i, j]:.3g}; {int(bad.sum())} of {bad.size} entries'})
+            break
+    res['nontrivial'] = p
+    res['dist'].update({'kernel': p['kernel'], 'transform': p['transform'], 'history_steps': len(steps),
+                        'diff_over_allowance': 'le0.1' if worst_ratio <= 0.1 else 'le0.5' if worst_ratio <= 0.5 else 'le1' if worst_ratio <= 1 else 'gt1'})
+    res['sample'] = {'params': p, 'steps': [s[0] for s in steps], 'worst_diff_over_allowance': worst_ratio}
+
+
 def run_agop(p, drv, res):
     import numpy as np
     import torch
@@ -400,7 +444,7 @@ def run_model(p, drv, res):
     res['sample'] = {'params': p, 'max_abs_fast_minus_dense': float((kf - kd).abs().max())}
 
 
-RUNNERS = {'kernel': run_kernel, 'agop': run_agop, 'model': run_model}
+RUNNERS = {'kernel': run_kernel, 'agop': run_agop, 'model': run_model, 'history': run_history}
 
 
 def execute(chunk):
@@ -482,6 +526,11 @@ def gen_cases(run):
             c['alias'] = 'product_laplace'
         if c['kernel'] == 'l2' and k % 2:
             c['alias'] = 'laplace'
+        cases.append(c)
+    # histories on one kernel object (the transform changes in place between evaluations)
+    for k in range(24 if quick else 240):
+        c = random_case(r, k, 'history', 'kernel-object-history', transforms=('diag', 'block', 'diag', 'none'))
+        c['nx'], c['nz'] = min(c['nx'], 25), min(c['nz'], 25)
         cases.append(c)
     for k in range(n_neg):       # at least two blocks, moderate distances: a mixing transform must be visible
         c = random_case(r, k, 'kernel', 'negative-control-mixing-transform', transforms=('mix',))
